@@ -32,7 +32,7 @@ def interp():
     I.stubs["eval_node_test"] = lambda I, *a: Ok(True)
     I.stubs["eval_filter_expr"] = lambda I, f, n, c: Ok(K.mk_enum("Value", K.XMODEL, "Node", SVec([("head", 0), ("head", 1)])))
     I.mstubs = {("LocStub", "operand"): lambda I, r: r.fields["operand"], ("LocStub", "operations"): lambda I, r: SVec(r.fields["operations"]),
-                ("CtxNode", "parent_node"): lambda I, r: Some(("parent", "ctx")), ("CtxNode", "owner_document"): lambda I, r: Some(K.mk_obj("DocStub", None)),
+                ("CtxNode", "parent_node"): lambda I, r: Some(("parent", "ctx")), ("XmlElement", "owner_document"): lambda I, r: Some(K.mk_obj("DocStub", None)), ("CtxNode", "owner_document"): lambda I, r: Some(K.mk_obj("DocStub", None)),
                 ("DocStub", "as_node"): lambda I, r: ("root",)}
     return I
 
@@ -82,6 +82,8 @@ def pairs():
     """(name, abbreviated thunk, expanded thunk)"""
     ctxnode = lambda: K.mk_obj("CtxNode", None)
     docnode = lambda: K.mk_enum("XmlNode", K.DOM, "Document", K.mk_obj("XmlDocument", K.DOM))
+    # a context node that is not the document (inside a predicate): absolute paths still start at the root
+    elemnode = lambda: K.mk_enum("XmlNode", K.DOM, "Element", K.mk_obj("XmlElement", K.DOM))
     ctx = lambda: K.mk_obj("Context", K.XMODEL, size=SVec(), position=SVec(), namespaces=SVec())
 
     def call(I, fn, args):
@@ -102,10 +104,15 @@ def pairs():
     P.append(("//b = /descendant-or-self::node()/b",
               lambda I: call(I, "eval_filtered_loc_expr", [Some((NONE, DOS())), loc(step("Child", "b")), docnode(), ctx()]),
               lambda I: call(I, "eval_filtered_loc_expr", [Some((NONE, CUR())), loc(step("DescendantOrSelf", "node()"), [(CUR(), step("Child", "b"))]), docnode(), ctx()])))
+    P.append(("//b = /descendant-or-self::node()/b (context node inside the document)",
+              lambda I: call(I, "eval_filtered_loc_expr", [Some((NONE, DOS())), loc(step("Child", "b")), elemnode(), ctx()]),
+              lambda I: call(I, "eval_filtered_loc_expr", [Some((NONE, CUR())), loc(step("DescendantOrSelf", "node()"), [(CUR(), step("Child", "b"))]), elemnode(), ctx()])))
     return P
 
 
-PROBES = [("<r><a><b/></a><b/></r>", "count((/r)//b)", "count((/r)/descendant-or-self::node()/b)"),
+PROBES = [("<r><a/><x/><x/></r>", "count(/r/a[count(//x) = 2])", "count(/r/a[count(/descendant-or-self::node()/x) = 2])"),
+          ("<r><a/><x/></r>", "count(/r/*[//x])", "count(/r/*[/descendant-or-self::node()/child::x])"),
+          ("<r><a><b/></a><b/></r>", "count((/r)//b)", "count((/r)/descendant-or-self::node()/b)"),
           ("<r><a><b/></a><b/></r>", "count((/r/a)//.)", "count((/r/a)/descendant-or-self::node()/self::node())"),
           ("<r><a><b/></a><b/></r>", "count(/r//b)", "count(/r/descendant-or-self::node()/b)"),
           ("<r><a><b/></a><b/></r>", "count(//b)", "count(/descendant-or-self::node()/b)"),
